@@ -134,7 +134,7 @@ Definition deleted_clients (acts : list action) : list addr :=
 Definition c06_update (t : Z) (o : ostep) (exp : list (addr * Z)) : list (addr * Z) :=
   let exp1 :=
     match os_ev o with
-    | EReq src _ _ (RqAllocate _ _ _ _ _) _ =>
+    | EReq src _ _ (RqAllocate _ _ _ _ _ _ _ _) _ =>
         match success_of MAllocate (os_acts o), aget addr_eqb src exp with
         | Some at_, None => match lifetime_attr at_ with Some secs => aset addr_eqb src (t + secs * sec) exp | None => exp end
         | _, _ => exp     (* retransmission: same answer, timer untouched *)
@@ -161,7 +161,7 @@ Fixpoint chk_C06_from (cfg : config) (t : Z) (exp : list (addr * Z)) (steps : li
       mset_eqb addr_eqb (map fst exp') (map oa_client (os_allocs o)) &&
       (* the granted value follows the rule *)
       match os_ev o with
-      | EReq src _ _ (RqAllocate _ lt _ _ _) _ =>
+      | EReq src _ _ (RqAllocate _ lt _ _ _ _ _ _) _ =>
           match success_of MAllocate (os_acts o), aget addr_eqb src exp with
           | Some at_, None => opt_eqb Z.eqb (lifetime_attr at_) (Some (granted_lifetime cfg lt / sec))
           | _, _ => true end
@@ -302,7 +302,7 @@ Definition chk_C19_step (before : list obs_alloc) (o : ostep) : bool :=
           addr_eqb d src && (t =? tid)%N && method_eqb m (req_method r) &&
           match r with
           | RqBinding => opt_eqb addr_eqb (mapped_attr at_) (Some src)
-          | RqAllocate _ _ _ _ _ =>
+          | RqAllocate _ _ _ _ _ _ _ _ =>
               opt_eqb addr_eqb (mapped_attr at_) (Some src) &&
               match relayed_attr at_, find_oalloc src (os_allocs o) with
               | Some ra, Some al =>
@@ -325,7 +325,24 @@ Definition chk_C19_step (before : list obs_alloc) (o : ostep) : bool :=
       end
   | _ => match replies (os_acts o) with [] => true | _ => false end
   end.
-Definition chk_C19 (c : rcase) : bool := all_steps chk_C19_step [] (rc_steps c).
+(* "a retransmitted Allocate gets the same success again": the attributes of an Allocate success answered while the
+   client's allocation already exists equal those of the success that created it *)
+Fixpoint chk_C19_cache (seen : list (addr * list sattr)) (before : list obs_alloc) (steps : list ostep) : bool :=
+  match steps with
+  | [] => true
+  | o :: r =>
+      let seen1 := filter (fun p => match find_oalloc (fst p) before with Some _ => true | None => false end) seen in
+      match os_ev o, replies (os_acts o) with
+      | EReq src _ _ (RqAllocate _ _ _ _ _ _ _ _) _, [Success _ MAllocate _ at_] =>
+          match find_oalloc src before, aget addr_eqb src seen1 with
+          | Some _, Some first => list_eqb sattr_eqb first at_ && chk_C19_cache seen1 (os_allocs o) r
+          | Some _, None => chk_C19_cache seen1 (os_allocs o) r     (* created before the observation started *)
+          | None, _ => chk_C19_cache (aset addr_eqb src at_ seen1) (os_allocs o) r
+          end
+      | _, _ => chk_C19_cache seen1 (os_allocs o) r
+      end
+  end.
+Definition chk_C19 (c : rcase) : bool := all_steps chk_C19_step [] (rc_steps c) && chk_C19_cache [] [] (rc_steps c).
 
 (* ---------- C03 ---------- *)
 (* owners from the lifecycle callbacks; time from the ticks; the credential descriptor decides *)
@@ -340,7 +357,7 @@ Fixpoint chk_C03_from (cfg : config) (ep : Z) (t : Z) (ow : list (addr * N)) (be
   | [] => true
   | o :: r =>
       let t' := t + ev_dt (os_ev o) in
-      let st := {| now := t'; epoch_min := ep; allocs := [] |} in
+      let st := {| now := t'; epoch_min := ep; allocs := []; rsvs := [] |} in
       let unchanged := mset_eqb obs_alloc_eqb before (os_allocs o) &&
                        match lifes (os_acts o) with [] => true | _ => false end in
       match os_ev o with
@@ -351,7 +368,7 @@ Fixpoint chk_C03_from (cfg : config) (ep : Z) (t : Z) (ow : list (addr * N)) (be
               match authenticate cfg st c with
               | AuthOK uid =>
                   match rq, aget addr_eqb src ow with
-                  | RqAllocate _ _ _ _ _, _ => true
+                  | RqAllocate _ _ _ _ _ _ _ _, _ => true
                   | _, Some u => if (u =? uid)%N then true
                                  else unchanged && match os_acts o with [] => true | _ => false end
                   | _, None => unchanged
